@@ -40,12 +40,13 @@ type tsigCase struct {
 	Time       uint64 // signing time, > Fudge
 	Error      uint16
 	Other      []byte
-	RefSigned  bool   // the reference signs (header ID may differ from OrigId by IDDelta)
-	IDDelta    uint16 // reference-signed only: header ID = OrigId + IDDelta
-	Sample     []int  // sampled flip positions for long messages
-	Secret2    []byte // "wrong secret" for the only-if clause
-	SkipClass  bool   // set by the generator only (known finding #18): alterations of the TSIG CLASS field are not evaluated
-	SkipFudge0 bool   // set by the generator only (known finding): the alteration Fudge := 0 is not evaluated
+	RefSigned  bool    // the reference signs (header ID may differ from OrigId by IDDelta)
+	IDDelta    uint16  // reference-signed only: header ID = OrigId + IDDelta
+	Sample     []int   // sampled flip positions for long messages
+	Far        []int64 // verifier clock offsets (now - time signed) far outside the window: +-(k*2^j) + d, |d| <= fudge+1
+	Secret2    []byte  // "wrong secret" for the only-if clause
+	SkipClass  bool    // set by the generator only (known finding #18): alterations of the TSIG CLASS field are not evaluated
+	SkipFudge0 bool    // set by the generator only (known finding): the alteration Fudge := 0 is not evaluated
 }
 
 func labelsOf(text string) (ref.Labels, error) {
@@ -265,6 +266,25 @@ func checkTsig(c tsigCase) (err error) {
 		if (verr == nil) != (d <= f) {
 			return pbt.Errf("TsigVerify at now = time signed %+d with fudge %d: %v, want accepted=%v", int64(now)-int64(c.Time), c.Fudge, verr, d <= f)
 		}
+	}
+
+	// ... and far away: the difference now - time signed is a 48-bit quantity (and the verifier's clock a
+	// 64-bit one); offsets that are a multiple of a power of two plus something small must be
+	// rejected like any other offset beyond the fudge
+	for _, off := range c.Far {
+		if off < 0 && uint64(-off) > c.Time {
+			continue
+		}
+		now := uint64(int64(c.Time) + off)
+		d := off
+		if d < 0 {
+			d = -d
+		}
+		verr := libVerify(out, c.Secret, c.ReqMAC, c.TimersOnly, now)
+		if (verr == nil) != (d <= int64(f)) {
+			return pbt.Errf("TsigVerify of a genuine MAC at now = time signed %+d (time signed %d, fudge %d): %v, want accepted=%v", off, c.Time, c.Fudge, verr, d <= int64(f))
+		}
+		pbt.Class("far-clock-offset")
 	}
 
 	// (4) only-if: single-bit flips
@@ -572,6 +592,21 @@ func genTsig(t *rapid.T) tsigCase {
 		c.IDDelta = rapid.Uint16Range(1, 65535).Draw(t, "iddelta")
 	}
 	c.Sample = rapid.SliceOfN(rapid.IntRange(0, 1<<22), 64, 64).Draw(t, "sample")
+	for i := 0; i < 6; i++ {
+		j := rapid.IntRange(8, 47).Draw(t, "farbit")
+		k := rapid.OneOf(rapid.Int64Range(1, 3), rapid.Int64Range(1, 65535)).Draw(t, "fark")
+		base := k << uint(j)
+		for base >= 1<<48 {
+			base >>= 1
+		}
+		d := rapid.OneOf(rapid.SampledFrom([]int64{0, 1, -1, int64(c.Fudge), -int64(c.Fudge), int64(c.Fudge) + 1, -int64(c.Fudge) - 1}),
+			rapid.Int64Range(-int64(c.Fudge)-1, int64(c.Fudge)+1)).Draw(t, "fard")
+		off := base + d
+		if rapid.Bool().Draw(t, "farneg") {
+			off = -off
+		}
+		c.Far = append(c.Far, off)
+	}
 	if pbt.Known(findClass) {
 		pbt.Excluded(findClass)
 		c.SkipClass = true
